@@ -116,7 +116,13 @@ def check_case(case):
             all_blank_row = any(all(c == "" for c in r) for r in table)
             tag = ("rank_cols+id_col" if rank_cols and id_col is not None else ("rank_cols" if rank_cols else "all-columns")) + (",weight_col" if weight else "")
             try:
-                prof = load_csv(path, list(rank_cols), **kwargs)
+                if not rank_cols and sd % 2:
+                    prof = load_csv(path, **kwargs)  # the default argument: earlier calls in this process must not have changed it
+                else:
+                    passed = list(rank_cols)
+                    prof = load_csv(path, passed, **kwargs)
+                    if passed != list(rank_cols):
+                        viol(f"load_csv[{tag}]:caller-list-modified", f"rank_cols argument {rank_cols} was changed to {passed}")
             except Exception as ex:
                 viol(f"load_csv[{tag}]:{type(ex).__name__}", f"{ex!r} with rank_cols={rank_cols} {kwargs}; file:\n{open(path).read()}")
                 return out
